@@ -162,6 +162,9 @@ type row struct {
 	lock   string // block cond-wait: the cond's lock
 	what   string
 	ctxs   []string
+	op     string   // access through sync/atomic: Load Store Store0 Add CAS Swap Other
+	sec    []string // section instances possibly open here: "lock|file:line" ("+": re-entered)
+	root   string   // scoped rows: the function whose execution this access belongs to
 }
 
 type world struct {
@@ -179,6 +182,7 @@ type world struct {
 	commSel    map[ast.Stmt]bool // comm statements of a select without default
 	repoPkg    map[*types.Package]bool
 	unknowns   []row
+	scopeMemo  map[string]*scopeNode
 }
 
 var W *world
@@ -222,11 +226,12 @@ func main() {
 	sort.Slice(pkgs, func(i, j int) bool { return pkgs[i].PkgPath < pkgs[j].PkgPath })
 	W = &world{fset: pkgs[0].Fset, pkgs: pkgs, byObj: map[*types.Func]*Fn{}, byLit: map[*ast.FuncLit]*Fn{},
 		fieldOwner: map[*types.Var]string{}, condLock: map[*types.Var]string{}, fieldLits: map[*types.Var][]*Fn{},
-		rangeX: map[ast.Expr]bool{}, commNB: map[ast.Stmt]bool{}, commSel: map[ast.Stmt]bool{}, repoPkg: map[*types.Package]bool{}}
+		scopeMemo: map[string]*scopeNode{}, rangeX: map[ast.Expr]bool{}, commNB: map[ast.Stmt]bool{}, commSel: map[ast.Stmt]bool{}, repoPkg: map[*types.Package]bool{}}
 	W.collect()
 	W.classifyEntries()
 	W.fixpoint()
 	rows := W.finalRows()
+	rows = append(rows, W.scopedRows()...)
 	if err := os.MkdirAll(*out, 0o755); err != nil {
 		panic(err)
 	}
@@ -236,8 +241,8 @@ func main() {
 	for _, r := range rows {
 		n[r.kind]++
 	}
-	fmt.Printf("lockfacts: %d functions, %d access, %d acquire, %d block, %d unknown rows\n",
-		len(W.fns), n["access"], n["acquire"], n["block"], n["unknown"])
+	fmt.Printf("lockfacts: %d functions, %d access, %d acquire, %d block, %d unknown, %d scoped rows\n",
+		len(W.fns), n["access"], n["acquire"], n["block"], n["unknown"], n["scoped"])
 }
 
 func (w *world) pos(p token.Pos) (string, int, int) {
@@ -668,7 +673,7 @@ func (w *world) fixpoint() {
 				if c.isEntry {
 					nm = set{}
 				}
-				nmay := union(c.entryMay, cs.may)
+				nmay := union(c.entryMay, lsFacts(cs.may)) // sections are inherited; completed-section marks (P:) are per function here
 				nctx := union(c.ctxs, fn.ctxs)
 				if !c.reach || !nm.eq(c.entryMust) || !nmay.eq(c.entryMay) || !nctx.eq(c.ctxs) {
 					c.reach = true
@@ -682,6 +687,87 @@ func (w *world) fixpoint() {
 		}
 	}
 	w.unknowns = append(w.unknowns, row{kind: "unknown", file: "-", fn: "-", what: "interprocedural fixpoint did not converge"})
+}
+
+func lsFacts(s set) set {
+	r := set{}
+	for k := range s {
+		if strings.HasPrefix(k, "L:") || strings.HasPrefix(k, "S:") {
+			r[k] = true
+		}
+	}
+	return r
+}
+
+// scopedRows: for every function that itself acquires a lock, the accesses executed within one execution of it
+// (its body and, context-sensitively, its callees), each with the section instances open at that point.
+func (w *world) scopedRows() []row {
+	var out []row
+	for _, fn := range w.fns {
+		acquires := false
+		ast.Inspect(fn.body, func(n ast.Node) bool {
+			if _, ok := n.(*ast.FuncLit); ok {
+				return false
+			}
+			if call, ok := n.(*ast.CallExpr); ok {
+				k := &walker{w: w, fn: fn, info: fn.pkg.TypesInfo}
+				if op, _, ok := k.lockOp(call); ok && (op == "Lock" || op == "RLock") {
+					acquires = true
+				}
+			}
+			return true
+		})
+		if !acquires {
+			continue
+		}
+		root := w.scoped(fn, state{must: set{}, may: set{}})
+		if root == nil {
+			continue
+		}
+		seen := map[*scopeNode]bool{}
+		dedup := map[string]bool{}
+		var visit func(n *scopeNode)
+		visit = func(n *scopeNode) {
+			if seen[n] {
+				return
+			}
+			seen[n] = true
+			for _, r := range n.rows {
+				if r.kind != "access" && r.kind != "unknown" {
+					continue
+				}
+				r.root = fn.key
+				if r.kind == "unknown" {
+					continue // unknown rows are reported by the context-insensitive pass already
+				}
+				key := fmt.Sprintf("%s:%d:%d|%s.%s|%s|%s|%v|%v", r.file, r.line, r.col, r.typ, r.field, r.akind, r.op, r.must, r.sec)
+				if dedup[key] {
+					continue
+				}
+				dedup[key] = true
+				r.kind = "scoped"
+				out = append(out, r)
+			}
+			for _, c := range n.children {
+				visit(c)
+			}
+		}
+		visit(root)
+	}
+	sort.SliceStable(out, func(i, j int) bool {
+		a, b := out[i], out[j]
+		if a.root != b.root {
+			return a.root < b.root
+		}
+		if a.file != b.file {
+			return a.file < b.file
+		}
+		if a.line != b.line {
+			return a.line < b.line
+		}
+		return a.col < b.col
+	})
+	return out
 }
 
 func lockFacts(s set) set {
@@ -716,10 +802,10 @@ func (w *world) finalRows() []row {
 		rows = append(rows, fn.rows...)
 		if fn.exitMust != nil {
 			em, am := lockFacts(fn.exitMust), lockFacts(fn.entryMust)
-			if !em.eq(am) || !lockFacts(fn.exitMay).eq(fn.entryMay) {
+			if !em.eq(am) || !lockFacts(fn.exitMay).eq(lockFacts(fn.entryMay)) {
 				// the function may return holding/releasing a lock of its caller: callers are analysed as if it were balanced
 				rows = append(rows, row{kind: "unknown", file: fn.file, line: fn.line, fn: fn.key, ctxs: cx,
-					what: fmt.Sprintf("unbalanced locking: entry must=%v may=%v, exit must=%v may=%v", am.sorted(), fn.entryMay.sorted(), em.sorted(), lockFacts(fn.exitMay).sorted())})
+					what: fmt.Sprintf("unbalanced locking: entry must=%v may=%v, exit must=%v may=%v", am.sorted(), lockFacts(fn.entryMay).sorted(), em.sorted(), lockFacts(fn.exitMay).sorted())})
 			}
 		}
 		if fn.deferred {
